@@ -18,13 +18,15 @@ EXTENDS Integers, Sequences, FiniteSets, TLC, Json
 CONSTANTS NF,        \* number of flavor names
           MaxOps,    \* bound on the number of defining forms
           MaxComps,  \* bound on the number of components of a flavor
+          VarKinds,  \* how a flavor may declare the instance variable v: a subset of {"", "var", "bare"}
           EmitFrom   \* histories shorter than this are not printed (random walks print the deep end only)
 Daemons == {"primary", "before", "after", "whopper"}
 AllF == <<"fa", "fb", "fc", "fd", "fe", "ff", "fg", "fh">>
 FSeq == SubSeq(AllF, 1, NF)
 F == {FSeq[i] : i \in 1..NF}
 VARIABLES comps,    \* comps[f] : Seq(F), or Undef while f is not defined
-          hasvar,   \* hasvar[f]: the flavor declares instance variable v (default = its own name; gettable, initable)
+          hasvar,   \* hasvar[f]: "var" the flavor declares instance variable v with its own name as the default (gettable, initable),
+                    \* "bare" it declares v without a default (the default is nil and it counts: a later component's default does not), "" no v
           dm,       \* set of <<flavor, daemon>> defined for the message :m
           hist, feat
 Undef == <<"undef">>
@@ -57,11 +59,11 @@ SendTrace(f) ==
 Handles(f) == \E g \in Rng(Prec(f)), d \in Daemons : Has(g, d)
 HasPrimary(f) == Sel(Prec(f), "primary") # <<>>
 \* the default of v comes from the first flavor in precedence order that declares it
-VarFrom(f) == LET vs == SelectSeq(Prec(f), LAMBDA g : hasvar[g]) IN IF vs = <<>> THEN "" ELSE vs[1]
+VarFrom(f) == LET vs == SelectSeq(Prec(f), LAMBDA g : hasvar[g] # "") IN IF vs = <<>> THEN "" ELSE vs[1]
 \* The message :v is answered by the first flavor in precedence order that has a method for it: the accessor a flavor gets by
 \* declaring v gettable, or a primary method (defmethod (g :v) ...) written by the user ("getv"; on the same flavor it replaces
 \* the accessor, it is defined after the flavor).  "" nobody answers, "val" an accessor (the value of v), "user:g" the method of g.
-GetV(f) == LET ps == SelectSeq(Prec(f), LAMBDA g : hasvar[g] \/ Has(g, "getv")) IN
+GetV(f) == LET ps == SelectSeq(Prec(f), LAMBDA g : hasvar[g] # "" \/ Has(g, "getv")) IN
            IF ps = <<>> THEN "" ELSE IF Has(ps[1], "getv") THEN "user:" \o ps[1] ELSE "val"
 
 \* ---- feature tags (constructs with a known defect of the implementation) ------------------
@@ -70,7 +72,7 @@ Features(op, f, d) ==
   (IF op = "defmethod" /\ Inheritors(f) # {} THEN {"method-after-inheritor"} ELSE {})
   \cup (IF op = "defmethod" /\ d = "whopper" THEN {"whopper"} ELSE {})
 
-Init == comps = [f \in F |-> Undef] /\ hasvar = [f \in F |-> FALSE] /\ dm = {} /\ hist = <<>> /\ feat = {}
+Init == comps = [f \in F |-> Undef] /\ hasvar = [f \in F |-> ""] /\ dm = {} /\ hist = <<>> /\ feat = {}
 SeqsUpTo(S, n) == UNION {[1..k -> S] : k \in 0..n}
 NoDup(s) == \A i, j \in 1..Len(s) : i # j => s[i] # s[j]
 DefFlavor(f, cs, hv) ==
@@ -80,14 +82,14 @@ DefFlavor(f, cs, hv) ==
     /\ f = FSeq[Cardinality({g \in F : Defined(g)}) + 1]
     /\ \A i \in 1..Len(cs) : Defined(cs[i]) /\ cs[i] # f
     /\ comps' = [comps EXCEPT ![f] = cs] /\ hasvar' = [hasvar EXCEPT ![f] = hv] /\ dm' = dm
-    /\ hist' = Append(hist, [op |-> "defflavor", f |-> f, cs |-> cs, d |-> IF hv THEN "var" ELSE ""])
+    /\ hist' = Append(hist, [op |-> "defflavor", f |-> f, cs |-> cs, d |-> hv])
     /\ feat' = feat
 DefMethod(f, d) == /\ Defined(f) /\ ~Has(f, d)
                    /\ dm' = dm \cup {<<f, d>>} /\ comps' = comps /\ hasvar' = hasvar
                    /\ hist' = Append(hist, [op |-> "defmethod", f |-> f, cs |-> <<>>, d |-> d])
                    /\ feat' = feat \cup Features("defmethod", f, d)
 Next == /\ Len(hist) < MaxOps
-        /\ \/ \E f \in F, cs \in SeqsUpTo(F, MaxComps), hv \in BOOLEAN : DefFlavor(f, cs, hv)
+        /\ \/ \E f \in F, cs \in SeqsUpTo(F, MaxComps), hv \in VarKinds : DefFlavor(f, cs, hv)
            \/ \E f \in F, d \in Daemons \cup {"getv"} : DefMethod(f, d)
 \* ---- directed histories: a wide component shared by two sibling flavors ---------------------------------------------
 \* w leaves with a daemon each, P made of them (with or without a method of its own), Q and R with a daemon each, and
@@ -107,15 +109,29 @@ Scripts == {Script(ds, pd, dq, dr, swap) : ds \in UNION {[1..w -> WideDaemons] :
                                             dq \in WideDaemons, dr \in WideDaemons, swap \in BOOLEAN}
 NextWide == \E sc \in Scripts :
               /\ Len(hist) < Len(sc) /\ SubSeq(sc, 1, Len(hist)) = hist
-              /\ LET o == sc[Len(hist) + 1] IN IF o.op = "defflavor" THEN DefFlavor(o.f, o.cs, FALSE) ELSE DefMethod(o.f, o.d)
+              /\ LET o == sc[Len(hist) + 1] IN IF o.op = "defflavor" THEN DefFlavor(o.f, o.cs, "") ELSE DefMethod(o.f, o.d)
+\* ---- directed histories: a defmethod that is rejected (a daemon keyword that does not exist) leaves nothing behind -------
+\* chain fa <- fb <- fc (fc may be defined after the rejected form), a method on fa, the rejected defmethod on fb, then a real
+\* one on fb: the inheritor sees it whether it was defined before or after, as if the rejected form had never been evaluated
+BadMethod(f) == /\ Defined(f) /\ UNCHANGED <<comps, hasvar, dm, feat>>
+                /\ hist' = Append(hist, [op |-> "badmethod", f |-> f, cs |-> <<>>, d |-> ""])
+BAD(f) == [op |-> "badmethod", f |-> f, cs |-> <<>>, d |-> ""]
+BadScripts == {<<DF(FSeq[1], <<>>), DM(FSeq[1], dt), DF(FSeq[2], <<FSeq[1]>>)>> \o (IF late THEN <<>> ELSE <<DF(FSeq[3], <<FSeq[2]>>)>>)
+               \o <<BAD(FSeq[2]), DM(FSeq[2], d2)>> \o (IF late THEN <<DF(FSeq[3], <<FSeq[2]>>)>> ELSE <<>>) :
+                 dt \in Daemons, d2 \in Daemons, late \in BOOLEAN}
+NextBad == \E sc \in BadScripts :
+              /\ Len(hist) < Len(sc) /\ SubSeq(sc, 1, Len(hist)) = hist
+              /\ LET o == sc[Len(hist) + 1] IN
+                 IF o.op = "defflavor" THEN DefFlavor(o.f, o.cs, "") ELSE IF o.op = "badmethod" THEN BadMethod(o.f) ELSE DefMethod(o.f, o.d)
 \* what must be observed after the history, for every defined flavor
 Expect == [f \in {g \in F : Defined(g)} |->
              [prec |-> Prec(f), handles |-> Handles(f), primary |-> HasPrimary(f), trace |-> SendTrace(f),
-              vfrom |-> VarFrom(f), getv |-> GetV(f)]]
+              vfrom |-> VarFrom(f), getv |-> GetV(f), vbare |-> (VarFrom(f) # "" /\ hasvar[VarFrom(f)] = "bare")]]
 Emit == Len(hist') < EmitFrom \/ PrintT(ToJson([hist |-> hist', expect |-> Expect', feat |-> feat']))
 \* random walks (tlc -simulate) evaluate an invariant on the states of the walk only; printing from there gives
 \* one line per walk step instead of one per enabled successor
 EmitState == Len(hist) < EmitFrom \/ PrintT(ToJson([hist |-> hist, expect |-> Expect, feat |-> feat]))
+EmitBad == hist \notin BadScripts \/ PrintT(ToJson([hist |-> hist, expect |-> Expect, feat |-> feat]))
 EmitWide == hist \notin Scripts \/ PrintT(ToJson([hist |-> hist, expect |-> Expect, feat |-> feat]))
 View == <<comps, hasvar, dm>>
 \* ---- properties of the reference itself (design check) --------------------------------------
